@@ -336,6 +336,11 @@ impl Scenario for Td {
             crate::world::hold_readiness(false);
             return true;
         }
+        // a control service that was taking its time over the Stop notification is done with it
+        if let Some(k) = self.conn.cgates.waiting().first() {
+            self.conn.cgates.open(*k, GateOutcome::Ok);
+            return true;
+        }
         // let time pass (keep-alive expiry, disconnect timeout) until the connection task has completed
         if !self.conn.done() && self.ticks < 60 {
             self.ticks += 1;
@@ -400,7 +405,8 @@ impl Scenario for Td {
             let entered = log.iter().any(|(_, r)| matches!(r, Rec::HEnter { .. }));
             let read_err = log.iter().any(|(_, r)| matches!(r, Rec::HPayload { err: Some(_), .. }));
             let dropped = log.iter().any(|(_, r)| matches!(r, Rec::HDrop { .. }));
-            if entered && !read_err && (!dropped || std::env::var("VERIF_C07_STRICT_READER").is_ok()) {
+            let strict = self.cfg.ep.ctl == crate::world::CtlMode::Gated || std::env::var("VERIF_C07_STRICT_READER").is_ok();
+            if entered && !read_err && (!dropped || strict) {
                 return Err(Violation::new("reader-left-waiting", self.wit(), format!("handler blocked in read() neither saw an error nor was cancelled: {}", self.detail())));
             }
         }
@@ -501,6 +507,19 @@ pub fn configs(tier: Tier) -> Vec<TdCfg> {
                     ep.read_mode = ReadMode::Detached;
                 }
                 let _ = tier;
+                // (not the v3 client: it keeps the payload sender in its own dispatcher, out of reach of the control
+                // wrapper that fails the reader at Stop time in the other three roles; its reader gets the error at
+                // service shutdown, together with the cancellation - "an error or cancelled", judged as before)
+                if base == Base::Streaming && !(ver == Ver::V3 && role == Role::Client) {
+                    // the control service takes its time over the Stop notification (it waits on a gate that opens at
+                    // the next quiescent point): handlers are still running meanwhile, so the blocked reader is polled
+                    // again before anything cancels it and must by then have been given its error - judged strictly
+                    // (seeded change C07_r9 left the reader asleep on a silently ended stream; with a control service
+                    // that answers at once it was cancelled in the same breath and nothing showed)
+                    let mut gep = ep.clone();
+                    gep.ctl = crate::world::CtlMode::Gated;
+                    v.push(TdCfg { ep: gep, base, cause });
+                }
                 v.push(TdCfg { ep, base, cause });
             }
         }
